@@ -281,6 +281,14 @@ func checkC14(c ClientHSCase, o *Obs) error {
 	if dials != 2 {
 		return fmt.Errorf("second dial made %d network dials", dials-1)
 	}
+	// the request of a repeated dial (same Dialer, same caller header map) is
+	// held to the same standard as the first
+	if len(rc.Reqs) != 1 {
+		return fmt.Errorf("second dial wrote %d requests", len(rc.Reqs))
+	}
+	if err := checkClientRequest(c, rc.Reqs[0], o); err != nil {
+		return fmt.Errorf("second dial with the same Dialer and header map: %w", err)
+	}
 	if key1 == key2 || key2 == "" {
 		return fmt.Errorf("the same challenge key %q was sent on two dials of one Dialer", key2)
 	}
